@@ -63,7 +63,10 @@ manifest = {
     "checks": checks,
     "not_applicable": na,
     "notes": "All checks: ./check <ID>; tier via --tier or VERIF_TIER; exit 2 = inconclusive "
-             "(time-out / engine error / non-reproducing counterexample), never success.",
+             "(time-out of a claimed job / engine error / non-reproducing counterexample), never success. "
+             "Thorough = the quick job list in full, then the deeper job list for the rest of the budget "
+             "(3000 s, VERIF_BUDGET_S overrides); a deeper mirsym job that does not finish is listed in the "
+             "evidence under thorough_not_completed and is not claimed.",
 }
 with open(os.path.join(HERE, "MANIFEST.json"), "w") as f:
     json.dump(manifest, f, indent=1)
